@@ -1,10 +1,12 @@
 #!/bin/bash
 # usage: try_seeded.sh <dir-with-patch.diff+demo_test.go+meta.json> [props to check...]
 # 1. confirms in a scratch worktree that the change compiles, passes the suite, and that the demo fails with / passes without it
-# 2. applies it to /repo, runs the quick checks of the given properties (default: the one in meta.json), undoes it
+# 2. runs the quick checks of the given properties (default: the one in meta.json) against that patched scratch worktree
+#    (VERIF_REPO override; /repo itself is never touched, so background sweeps are not disturbed)
 set -u
 export GOFLAGS=-mod=mod GOPROXY=off GOSUMDB=off GOTOOLCHAIN=local
 D=$(readlink -f "$1"); shift
+VDIR=$(readlink -f "$(dirname "$0")/..")
 PROP=$(python3 -c "import json,sys;print(json.load(open('$D/meta.json'))['property'])")
 VAR=$(python3 -c "import json,sys;print(json.load(open('$D/meta.json')).get('variant','x'))")
 PROPS="${*:-$PROP}"
@@ -32,7 +34,7 @@ for l in sys.stdin:
 m=stable-p
 print('suite-ok' if not m else 'suite-BROKEN missing=%d %s'%(len(m),sorted(m)[:3]))")
 echo "VALIDATE $PROP/$VAR: build=[${build}] clean_demo=[${clean_demo}] patched_demo=[${patched_demo}] ${suite}"
-cd /verif
+cd "$VDIR"
 # run the checks against the patched scratch worktree (never against /repo, which other runs may be using)
 export VERIF_REPO=$W VERIF_BUILD_DIR=/tmp/seedbuild.$$ VERIF_OUT_DIR=/tmp/seedout.$$
 mkdir -p $VERIF_BUILD_DIR
